@@ -2,7 +2,7 @@
 from ..rules import branching, engine, model, propagators, search, shaving
 
 EXPLANATION = (
-    "Static analysis of the history clause: the only writers of the enabled-constraints stack are cp_init (row 0 <- True), cp_put (row t+1 <- row t) and the propagation loop's entailment branch (flag of the popped propagator, at the level current at entry, only under status == PROP_ENTAILMENT); backtrack exposes the saved row untouched; every wake-up consults the row of the level current at that site; every return of every registered filtering function is one of the three PROP_* constants. Does not decide that an entailment guard implies the relation on the whole box. Also: a block that enforces a + k <= b answers 'entailed' only under a.MAX + k <= b.MIN (agreement of two beliefs stated in the same block, e.g. the strict case of lexicographic_leq); the three PROP_* answers are pairwise distinct; the wake-up primitive and every wake-up site (write-back, decision hand-over, backtrack replay) consult the enabled-flags row of the current level or of a level below it; every new level pushed by a value heuristic gets a copy of the flags row. Round 3: index / counter / table families of entailment guards decided as entailments of the path facts (index row a single value; the two counters equal; one table row left), a row copied into another's needs to be a single value, interval-sum symmetry, no 32-bit vector arithmetic."
+    "Static analysis of the history clause: the only writers of the enabled-constraints stack are cp_init (row 0 <- True), cp_put (row t+1 <- row t) and the propagation loop's entailment branch (flag of the popped propagator, at the level current at entry, only under status == PROP_ENTAILMENT); backtrack exposes the saved row untouched; every wake-up consults the row of the level current at that site; every return of every registered filtering function is one of the three PROP_* constants. Does not decide that an entailment guard implies the relation on the whole box. Also: a block that enforces a + k <= b answers 'entailed' only under a.MAX + k <= b.MIN (agreement of two beliefs stated in the same block, e.g. the strict case of lexicographic_leq); the three PROP_* answers are pairwise distinct; the wake-up primitive and every wake-up site (write-back, decision hand-over, backtrack replay) consult the enabled-flags row of the current level or of a level below it; every new level pushed by a value heuristic gets a copy of the flags row. Round 3: index / counter / table families of entailment guards decided as entailments of the path facts (index row a single value; the two counters equal; one table row left), a row copied into another's needs to be a single value, interval-sum symmetry, no 32-bit vector arithmetic. Round 6: un-probing (shaving) wakes against the restored level's row; a filtering function never updates its parameters in place; every posted constraint stays posted (a presolve that drops a constraint judged entailed by the initial domains judges one box, not the constraint)."
 )
 
 
